@@ -214,19 +214,39 @@ Cut(st, rows) ==   \* OFFSET m then LIMIT n, per result series
 \* the tag sets SLIMIT / SOFFSET count: every series of the measurement that exists in the data (any
 \* field, any time) and matches the tag predicate, whether or not it contributes a row  (CALIBRATED)
 TagSets(st, D) == {GroupKey(st, p.s) : p \in {p \in D : SeriesTab[p.s].m = Meas /\ PredOK(st, p.s)}}
-
-Eval(st, D) ==
-  LET P == Sel(st, D)
-      G == TagSets(st, D)
-      gs == Dir(st, SortF(G, [g \in G |-> KeyNum(g)]))     \* result series in direction order  (CALIBRATED)
+\* ... in the order of the index's tag-set keys "k|v|k|v" built from the tags the series HAS, ascending also
+\* under ORDER BY time DESC (CALIBRATED); it differs from the order of the result series for two GROUP BY
+\* tags: (a,"") < (a,x) < (b,x) < ("",x)
+SLSeq(st, g) == SelectSeq([i \in 1..Len(g) |-> IF g[i] = "" THEN 0
+                                               ELSE (IF st.group[i] = "t1" THEN 1 ELSE 2) * 4 + Rank(g[i]) + 1],
+                          LAMBDA d : d # 0)
+SLNum(st, g) == LET q == SLSeq(st, g)
+                IN (IF Len(q) >= 1 THEN q[1] * 16 ELSE 0) + (IF Len(q) >= 2 THEN q[2] ELSE 0)
+SLWindow(st, G) ==    \* the set of tag sets that SLIMIT n SOFFSET m keeps
+  LET q == SortF(G, [g \in G |-> SLNum(st, g)])
       a == st.soffset + 1
-      b == IF st.slimit = 0 THEN Len(gs) ELSE IF st.soffset + st.slimit < Len(gs) THEN st.soffset + st.slimit ELSE Len(gs)
-      sel == IF a > b THEN <<>> ELSE SubSeq(gs, a, b)
+      b == IF st.slimit = 0 THEN Len(q) ELSE IF st.soffset + st.slimit < Len(q) THEN st.soffset + st.slimit ELSE Len(q)
+  IN {q[i] : i \in a..b}
+
+\* Keep(g): which tag sets survive SLIMIT / SOFFSET for a given point set
+EvalOver(st, P, sel) ==
+  LET gs == Dir(st, SortF(sel, [g \in sel |-> KeyNum(g)]))     \* result series in direction order  (CALIBRATED)
       rowsOf(g) == LET Pg == {p \in P : GroupKey(st, p.s) = g}
                    IN IF Pg = {} THEN <<>>
                       ELSE Cut(st, IF st.fn = "raw" THEN Dir(st, RawRows(st, Pg)) ELSE AggRows(st, Pg))
-      all == [i \in 1..Len(sel) |-> [tags |-> sel[i], rows |-> rowsOf(sel[i])]]
+      all == [i \in 1..Len(gs) |-> [tags |-> gs[i], rows |-> rowsOf(gs[i])]]
   IN SelectSeq(all, LAMBDA r : r.rows # <<>>)
+
+Eval(st, D) == EvalOver(st, Sel(st, D), SLWindow(st, TagSets(st, D)))
+
+\* Recorded deviation of the code (known finding, not the property): SLIMIT / SOFFSET are applied by every
+\* shard to ITS OWN tag sets.  With shards of W time units on one node the code computes this:
+ShardOf(t, W) == t \div W
+EvalSLimitPerShard(st, D, W) ==
+  LET K == {ShardOf(p.t, W) : p \in D}
+      keep == [k \in K |-> SLWindow(st, TagSets(st, {p \in D : ShardOf(p.t, W) = k}))]
+      P == {p \in Sel(st, D) : GroupKey(st, p.s) \in keep[ShardOf(p.t, W)]}
+  IN EvalOver(st, P, {GroupKey(st, p.s) : p \in P})
 
 \* a raw select whose LIMIT / OFFSET may cut through rows of equal time of different series has no
 \* defined answer: excluded from generation
@@ -243,6 +263,10 @@ WellFormed(st) ==
   /\ (st.interval = 0 => st.fill = "none" /\ st.offset = 0)
   /\ (st.interval > 0 => st.fn # "raw" /\ st.lo # NoBound /\ st.hi # NoBound /\ st.offset \in 0..(st.interval - 1))
   /\ (st.lo # NoBound /\ st.hi # NoBound => st.lo <= st.hi)
+  \* OFFSET without LIMIT and SOFFSET without SLIMIT are documented as unsupported ("can cause inconsistent
+  \* query results"; the code truncates every series to m+1 points, resp. returns nothing): not generated
+  /\ (st.offrows > 0 => st.limit > 0)
+  /\ (st.soffset > 0 => st.slimit > 0)
 
 -----------------------------------------------------------------------------
 (* Sanity theorems about Eval, checked exhaustively by TLC on a small domain (SpecData: every data   *)
@@ -252,13 +276,13 @@ Base == [fn |-> "count", field |-> "v", lo |-> NoBound, hi |-> NoBound, pred |->
          interval |-> 0, offset |-> 0, group |-> <<>>, fill |-> "none", desc |-> FALSE,
          limit |-> 0, offrows |-> 0, slimit |-> 0, soffset |-> 0]
 Preds == {[k |-> "", op |-> "=", v |-> ""]} \cup (IF Wide THEN {[k |-> "t1", op |-> "!=", v |-> "a"]} ELSE {})
-Ranges == {<<NoBound, NoBound>>, <<1, MaxT>>} \cup (IF Wide THEN {<<0, MaxT - 1>>} ELSE {})
+Ranges == {<<NoBound, NoBound>>, <<0, MaxT>>} \cup (IF Wide THEN {<<1, MaxT - 1>>} ELSE {})
 Groups == {<<>>, <<"t1">>}
 AggFns == {"count", "sum", "mean", "min", "max", "first", "last", "spread", "median"}
 Fills == {"none", "null", "number", "previous", "linear"}
 \* shapes: where / grouping part of a statement (without function, fill, order and limits)
 Shapes == {[Base EXCEPT !.lo = r[1], !.hi = r[2], !.pred = p, !.group = g, !.interval = i[1], !.offset = i[2]] :
-             r \in Ranges, p \in Preds, g \in Groups, i \in {<<0, 0>>, <<2, 1>>} \cup (IF Wide THEN {<<2, 0>>, <<3, 1>>} ELSE {})}
+             r \in Ranges, p \in Preds, g \in Groups, i \in {<<0, 0>>, <<2, 1>>} \cup (IF Wide THEN {<<2, 0>>} ELSE {})}
 WShapes == {s \in Shapes : WellFormed(s)}
 WinShapes == {s \in WShapes : s.interval > 0}
 
@@ -296,7 +320,8 @@ C11_OrderOfAggregates ==
 \* ORDER BY time DESC is the reverse of the ascending result (series and rows) - except fill(previous),
 \* which looks at the previously ITERATED window
 C11_DescIsReverse ==
-  \A s \in WShapes : \A fn \in {"raw", "count", "min", "last"} : \A fl \in Fills \ {"previous"} :
+  \A s \in WShapes : \A fn \in {"raw", "count", "min"} \cup (IF Wide THEN {"last"} ELSE {}) :
+   \A fl \in (IF Wide THEN Fills \ {"previous"} ELSE {"none", "linear"}) :
     LET st == [s EXCEPT !.fn = fn, !.fill = fl] IN
     WellFormed(st) =>
       LET up == Eval(st, data)
@@ -312,7 +337,7 @@ C11_LimitIsWindow ==
     LET st == [s EXCEPT !.fn = fn, !.fill = fl, !.desc = d] IN
     WellFormed(st) =>
       LET full == Eval(st, data) IN
-      \A lim \in {<<1, 1>>, <<2, 0>>} :
+      \A lim \in {<<1, 1>>} \cup (IF Wide THEN {<<2, 0>>} ELSE {}) :
         LET stl == [st EXCEPT !.limit = lim[1], !.offrows = lim[2]] IN
         Eval(stl, data) = NonEmpty([i \in 1..Len(full) |-> [tags |-> full[i].tags, rows |-> Cut(stl, full[i].rows)]])
 
@@ -322,18 +347,20 @@ C11_SLimitIsWindow ==
     LET st == [s EXCEPT !.fn = fn, !.desc = d] IN
     WellFormed(st) =>
       LET full == Eval(st, data) IN
-      \A sl \in {<<1, 0>>, <<1, 1>>} :
+      \A sl \in {<<1, 1>>} \cup (IF Wide THEN {<<1, 0>>} ELSE {}) :
         LET cut == Eval([st EXCEPT !.slimit = sl[1], !.soffset = sl[2]], data) IN
         /\ Len(cut) <= 1
         /\ \A i \in 1..Len(cut) : \E j \in 1..Len(full) : cut[i] = full[j]
+        \* the recorded deviation coincides with Eval when everything is in one shard
+        /\ EvalSLimitPerShard([st EXCEPT !.slimit = sl[1], !.soffset = sl[2]], data, MaxT + 1) = cut
 
 \* fill(none) = the non-empty windows of any other fill; fill never changes a non-empty window and always
 \* produces every window of the range
 C11_FillOnlyFillsGaps ==
-  \A s \in WinShapes : \A fn \in {"sum", "mean"} : \A d \in BOOLEAN :
+  \A s \in WinShapes : \A fn \in {"mean"} \cup (IF Wide THEN {"sum"} ELSE {}) : \A d \in BOOLEAN :
     LET st == [s EXCEPT !.fn = fn, !.desc = d]
         none == Eval(st, data)
-    IN \A fl \in Fills \ {"none"} :
+    IN \A fl \in (IF Wide THEN Fills \ {"none"} ELSE {"previous", "linear"}) :
         LET fill == Eval([st EXCEPT !.fill = fl], data) IN
         /\ Len(none) = Len(fill)
         /\ \A i \in 1..Len(none) :
